@@ -6,9 +6,9 @@
    panics / loops / hits UB, and the contents afterwards are the abstract map's.
    The remaining theorems are the property's sentences, stated on the abstract map the
    implementation is proved equal to.
-   OBLIGATIONS: C01_history_agrees_with_reference_map C01_no_call_panics C01_step_agrees C01_insert_returns_previous_keeps_first_key C01_remove_returns_stored_leaves_rest C01_get_mut_changes_only_that_key C01_len_counts_distinct_keys C01_nonvacuous *)
+   OBLIGATIONS: C01_history_agrees_with_reference_map C01_no_call_panics C01_step_agrees C01_insert_returns_previous_keeps_first_key C01_remove_returns_stored_leaves_rest C01_get_mut_changes_only_that_key C01_len_counts_distinct_keys C01_arena_level_mutators_simulate C01_nonvacuous *)
 From BPT Require Import Common.Base Common.AMap Rust.Arena Rust.Tree Rust.Heap Rust.Readers Rust.Run
-     Rust.InvDefs Rust.Repr Rust.Spec Rust.ReachDefs Rust.Lib Rust.TreeFactsI Rust.Reach Rust.ReadersGet Props.Reachable.
+     Rust.InvDefs Rust.Repr Rust.Spec Rust.ReachDefs Rust.Lib Rust.TreeFactsI Rust.Reach Rust.ReadersGet Rust.HeapOps Rust.HeapOpsSim Props.Reachable.
 
 Theorem C01_history_agrees_with_reference_map :
   forall (V : Type) (c : nat) (ops : list (op V)),
@@ -83,6 +83,27 @@ Proof.
   exists b. split; [exact E|]. split.
   - destruct (inv_shape I) as [h Sh]. eapply contents_sorted; [apply (inv_ord I)|exact Sh].
   - cbn [step snd]. rewrite (@ReadersGet.len_spec V b (flatten b) I HO). reflexivity.
+Qed.
+
+(* The mutators as the crate performs them - on the two arenas, by node id (Rust/HeapOps.v:
+   insert_A, remove_A, get_mut_write_A, clear_A transcribe insert_operations.rs /
+   delete_operations.rs / get_operations.rs / tree_structure.rs at arena level) - applied to
+   the arena layout of a state give exactly the arena layout of the tree-level model's
+   result, with the same return value: the theorems of this file are about the arena-level
+   algorithm too. *)
+Theorem C01_arena_level_mutators_simulate :
+  forall (V : Type) (b : bstate V), Inv b -> room (lmeta b) 1 -> room (bmeta b) (height (root b) + 2) ->
+    (forall k v, exists b' old, b_insert b k v = Ok (b', old) /\ insert_A (flatten b) k v = Ok (flatten b', old)) /\
+    (rooms b -> forall z, exists b' old, b_remove b z = Ok (b', old) /\ remove_A (flatten b) z = Ok (flatten b', old)) /\
+    (rooms b -> forall z v, exists b' ok, b_get_mut_write b z v = Ok (b', ok) /\
+                                           get_mut_write_A (flatten b) z v = Ok (flatten b', ok)) /\
+    clear_A (flatten b) = flatten (b_clear b).
+Proof.
+  intros V b I R1 R2. split; [|split; [|split]].
+  - intros k v. apply insert_sim; assumption.
+  - intros R z. apply remove_sim; assumption.
+  - intros R z v. apply get_mut_write_sim; assumption.
+  - apply clear_sim.
 Qed.
 
 Definition C01_nonvacuous := (ReachExamples.ex_agree, ReachExamples.ex_fits, ReachExamples.ex_abstract).
